@@ -1000,7 +1000,10 @@ def OP_UNSET_FLAG(tape: Tape, stack: Stack, cache: dict) -> None:
     """
     size = int.from_bytes(tape.read(1), 'big')
     flag = _flag_key(tape.read(size), tape.flags)
-    if flag in tape.flags:
+    if flag in flags:
+        # standard flags stay off: defaults are re-applied to missing ones
+        tape.flags[flag] = False
+    elif flag in tape.flags:
         del tape.flags[flag]
 
 def OP_DEPTH(tape: Tape, stack: Stack, cache: dict) -> None:
